@@ -394,6 +394,20 @@ class Engine:
             ce = [s for _, s in common.parse_counterexample(res.out) if 'lbl' in s]
             return [tuple(s['lbl']) for s in ce[1:]]
 
+    def stored_schedules(self, prefix, **judgekw):
+        """Schedules found by long TLC searches (design mutations whose shortest counterexample needs minutes of model
+        checking) are kept under spec/proto/schedules/ and replayed on the real code by the quick tier; the thorough tier
+        regenerates them (tools/gen_schedules.py)."""
+        import json
+        n = 0
+        for fn in sorted(glob.glob(os.path.join(common.SPEC, 'proto', 'schedules', prefix + '*.json'))):
+            d = json.load(open(fn))
+            topo = Topo.from_dict(d['topo_def'])
+            self.real_run_labels(topo, [tuple(l) for l in d['labels']], origin=d['origin'] + f' [stored: {os.path.basename(fn)}]',
+                                 **judgekw)
+            n += 1
+        print(f'  [stored] {n} stored schedule(s) {prefix}* replayed', flush=True)
+
     def real_run_labels(self, topo, labels, origin, **judgekw):
         rng = common.rng(self.ctx, origin)
         pipe, skipped = run_labels(topo, labels, rng)
